@@ -322,7 +322,7 @@ func genB(t *rapid.T) ([]ops.Op, []int) {
 
 func TestReuse(t *testing.T) {
 	files := corpus.Testdata()
-	harness.Rapid(t, harness.N(5000, 16*25000), func(t *rapid.T) {
+	harness.Rapid(t, harness.N(5000, 16*75000), func(t *rapid.T) {
 		var c Case
 		var labels []string
 		c.AOps, labels = genA(t)
